@@ -93,6 +93,8 @@ def build_cases(ctx, levels):
         t, kids, methods = g.gen_program()
         if rng.random() < 0.5:
             t = G.comment_terminators(rng, t, 0.35)
+        if rng.random() < 0.3:
+            t = G.comment_in_expressions(rng, t, 0.3)
         if rng.random() < 0.6:
             t = G.relayout(rng, t)
         rnd.append(("random", None, t, kids))
